@@ -2,7 +2,7 @@
    Vocabulary (Model.v / Proofs*.v): a world = heap of buffers + list of objects (meshes, caller arrays), each a list of
    cell ids; wf = in every object the vertex ids use pairwise distinct allocated buffers; ok_hist = producers outside the
    anchors store no vector under two ids; obj_coords w i = coordinates of object i; allocated m c = buffer c exists in m. *)
-From Coq Require Import ZArith List Bool PArith.
+From Coq Require Import ZArith List Bool PArith QArith Qcanon.
 Import ListNotations.
 Require Import MV.Lib.Base MV.C06.Base MV.C06.Gen MV.C06.Model MV.C06.Run MV.C06.Proofs.
 
@@ -22,27 +22,29 @@ Theorem C06_ring_stores_every_vertex_once :
 Proof. exact ring_structure. Qed.
 Print Assumptions C06_ring_stores_every_vertex_once.
 
-(* copy: equal to its source, on buffers that did not exist before (so shared with nobody), nothing else touched *)
+(* copy (both branches): every container - elements and the element/owner tables of face_corners, cell_corners,
+   cell_faces - equal to its source, on buffers that did not exist before (so shared with nobody), nothing else touched *)
 Theorem C06_copy :
   forall (T : Type) (O : ops T) (w w' : world (T:=T)) i attr,
     wf w -> step O w (OCopy i attr) = Some w' ->
     exists so co, get_mesh w i = Some so /\ wobjs w' = wobjs w ++ [co]
       /\ coords O (mheap (wmem w')) co = coords O (mheap (wmem w)) so
-      /\ oedges co = oedges so /\ ofaces co = ofaces so /\ occells co = occells so /\ okind co = okind so
+      /\ oedges co = oedges so /\ ofaces co = ofaces so /\ occells co = occells so /\ ocorn co = ocorn so
+      /\ okind co = okind so
       /\ NoDup (ocells co) /\ (forall c, In c (ocells co) -> ~ allocated (wmem w) c)
       /\ frame O (wmem w) (wmem w').
 Proof. exact (fun T O => copy_spec O). Qed.
 Print Assumptions C06_copy.
 
-(* merge: vertices concatenated, elements of input k shifted by the running vertex count, class = largest
-   dimensionality, on fresh pairwise distinct buffers - also when one mesh occurs twice in the list *)
+(* merge: vertices concatenated, elements of input k shifted by the running vertex count (corner tables by the running
+   vertex / face / cell counts), class = largest dimensionality, on fresh pairwise distinct buffers - also when one mesh occurs twice in the list *)
 Theorem C06_merge :
   forall (T : Type) (O : ops T) (w w' : world (T:=T)) ms,
     wf w -> step O w (OMerge ms) = Some w' ->
     exists ins mo, get_meshes w ms = Some ins /\ wobjs w' = wobjs w ++ [mo]
       /\ coords O (mheap (wmem w')) mo = flat_map (coords O (mheap (wmem w))) ins
       /\ oedges mo = shifted sel_edges 0 ins /\ ofaces mo = shifted sel_faces 0 ins /\ occells mo = shifted sel_cells 0 ins
-      /\ okind mo = max_dim ins
+      /\ ocorn mo = merge_corn 0 0 0 ins /\ okind mo = max_dim ins
       /\ NoDup (ocells mo) /\ (forall c, In c (ocells mo) -> ~ allocated (wmem w) c)
       /\ frame O (wmem w) (wmem w').
 Proof. exact (fun T O => merge_spec O). Qed.
@@ -50,8 +52,8 @@ Print Assumptions C06_merge.
 
 (* from_arrays: the mesh holds the array's values on buffers of its own *)
 Theorem C06_from_arrays :
-  forall (T : Type) (O : ops T) (w w' : world (T:=T)) a e f c k,
-    wf w -> step O w (OFromArrays a e f c k) = Some w' ->
+  forall (T : Type) (O : ops T) (w w' : world (T:=T)) a e f c cn k,
+    wf w -> step O w (OFromArrays a e f c cn k) = Some w' ->
     exists ao mo, nth_error (wobjs w) a = Some ao /\ wobjs w' = wobjs w ++ [mo]
       /\ coords O (mheap (wmem w')) mo = coords O (mheap (wmem w)) ao
       /\ NoDup (ocells mo) /\ (forall c, In c (ocells mo) -> ~ allocated (wmem w) c)
@@ -70,6 +72,28 @@ Theorem C06_new_object_isolated :
     /\ (Forall (targets_only i) l -> obj_coords O w2 (length (wobjs w)) = obj_coords O w1 (length (wobjs w))).
 Proof. exact (fun T O => fresh_object_isolated O). Qed.
 Print Assumptions C06_new_object_isolated.
+
+(* FULL statement wanted by the property ("whatever way the mesh was produced"): a transform / edit through object i never
+   changes another object j. It is FALSE of the faithful model as soon as a producer hands its source's (or the caller's)
+   vectors to its result - boundary extraction, subdivision, procedural generators with point arguments do
+   (known finding, see known_findings.d/C06.json). Proved under the exact guard "i and j share no buffer": *)
+Theorem C06_transform_leaves_other_objects_alone_partial :
+  forall (T : Type) (O : ops T) (w w' : world (T:=T)) o i j,
+    wf w -> op_ok w o -> step O w o = Some w' -> target o = Some i -> j <> i -> (j < length (wobjs w))%nat ->
+    (forall c, In c (obj_cells w j) -> ~ In c (obj_cells w i)) ->
+    obj_coords O w' j = obj_coords O w j.
+Proof. exact (fun T O => disjoint_objects_do_not_interfere O). Qed.
+Print Assumptions C06_transform_leaves_other_objects_alone_partial.
+
+(* ... and refuted without the guard: a triangle, its boundary polyline built on the triangle's own three vectors (as
+   extract_boundary_of_surface does), translate the polyline: the triangle moves *)
+Theorem C06_transform_leaves_other_objects_alone_refuted :
+  exists (w1 w2 : world (T:=Qc)) o i j,
+    run QcO (w0 (T:=Qc)) alias_hist = Some w1 /\ wf w1 /\ ok_hist QcO (w0 (T:=Qc)) alias_hist
+    /\ step QcO w1 o = Some w2 /\ target o = Some i /\ j <> i /\ (j < length (wobjs w1))%nat
+    /\ obj_coords QcO w2 j <> obj_coords QcO w1 j.
+Proof. exact derived_alias_moves_the_source. Qed.
+Print Assumptions C06_transform_leaves_other_objects_alone_refuted.
 
 (* general form: buffers disjoint from object k's are untouched by every history that writes only through object k *)
 Theorem C06_isolation :
